@@ -135,3 +135,10 @@ impl<O: Clone + PartialEq + std::fmt::Debug, A: HasVar + Clone + PartialEq + std
         dyn_functor::define_map_arrow(self, f)
     }
 }
+
+#[cfg(feature = "verif-hooks")]
+pub mod verif_hooks_local {
+    pub fn all_elements_equal<T: PartialEq>(a: &[T], b: &[T]) -> bool {
+        super::all_elements_equal(a, b)
+    }
+}
